@@ -38,17 +38,15 @@ Fixpoint get_data_type_te (l : option ltable) (g : option gtable) (caller : opti
       | None => ROk (t, array_type caller sz None)
       end
   | TNamed name =>
-      if text_eqb (id_val name) s_int then ROk (t, Some DInt)
-      else
-        match lt_lookup l g (id_val name) with
-        | Some (EntType te) => ROk (t, ten_ty te)
-        | Some _ =>
-            do name' <- ident_flag name (fun n => EBuild (NotAType n));
-            ROk (TNamed name', None)
-        | None =>
-            do name' <- ident_flag name (fun n => EBuild (UndefinedType n));
-            ROk (TNamed name', None)
-        end
+      match lt_lookup l g (id_val name) with
+      | Some (EntType te) => ROk (t, ten_ty te)
+      | Some _ =>
+          do name' <- ident_flag name (fun n => EBuild (NotAType n));
+          ROk (TNamed name', None)
+      | None =>
+          do name' <- ident_flag name (fun n => EBuild (UndefinedType n));
+          ROk (TNamed name', None)
+      end
   end.
 
 (* get_data_type(type_expr: Option<&mut Reference<TypeExpression>>, ..) *)
